@@ -82,6 +82,8 @@ def build(fp, inst, G=None, extra_opts=None):
         kw["length_attr"] = "length"
     if inst.get("given_weights") is not None:
         kw["solution_weights_superset"] = [num(q, wint) for q in inst["given_weights"]]
+    for a, b in (inst.get("ctor_extra") or {}).items():      # further constructor arguments (JSON-able; edges as lists)
+        kw[a] = [tuple(x) for x in b] if a == "trusted_edges_for_safety" else b
     sig = inspect.signature(cls.__init__).parameters
     kw = {k: v for k, v in kw.items() if k in sig}
     if inst["cls"] not in HAS_K:
